@@ -564,7 +564,7 @@ def normal_data_length_contract(h, mod, dec_cls, listattr, stride, sub_id):
     the decoder must read the record behind the normal data - i.e. return what it returns for the
     payload without the normal data, whose vendor reading is the subject of decode-vendor-reading -
     or reject; it must not read the normal data as a record."""
-    nr = h.int("non_repeat_length", 1, 16)
+    nr = h.int("non_repeat_length", 1, 65535)
     buf = h.abytes("payload")
     h.assume(h.length(buf) >= nr + stride, "the payload carries the announced normal data and one record")
     r = h.method(h.new(mod + ":" + dec_cls), "decode", buf, at5_c0_subheader(h, sub_id, nr, stride, 1))
@@ -576,7 +576,8 @@ def normal_data_length_contract(h, mod, dec_cls, listattr, stride, sub_id):
     h.oblige("the record is read behind the announced normal data (or the payload is rejected)", same)
 
 
-@oset("at5.xC021.decode-normal-data-length", ["C05", "C17"], [X21 + ":ZoneStatusDecoder.decode"], bounded="one record, normal data length 1..16")
+@oset("at5.xC021.decode-normal-data-length", ["C05", "C17"], [X21 + ":ZoneStatusDecoder.decode"],
+      assumptions=["one record behind the normal data (the record loop itself is the subject of decode-vendor-reading); every normal data length 1..65535"])
 def x21_normal_data(h):
     normal_data_length_contract(h, X21, "ZoneStatusDecoder", "zones", 8, 0x21)
 
@@ -655,7 +656,8 @@ def x23_decode(h):
                            check_ac_status_record, "x23", 0x23)
 
 
-@oset("at5.xC023.decode-normal-data-length", ["C05", "C17"], [X23 + ":AcStatusDecoder.decode"], bounded="one record, normal data length 1..16")
+@oset("at5.xC023.decode-normal-data-length", ["C05", "C17"], [X23 + ":AcStatusDecoder.decode"],
+      assumptions=["one record behind the normal data (the record loop itself is the subject of decode-vendor-reading); every normal data length 1..65535"])
 def x23_normal_data(h):
     normal_data_length_contract(h, X23, "AcStatusDecoder", "ac_status", 10, 0x23)
 
